@@ -6,3 +6,4 @@ import LettreVerif.Props.C18
 #print axioms LV.C18.json_escape_lossless
 #print axioms LV.C18.stub_exact_partial
 #print axioms LV.C18.stub_lossy_witness
+#print axioms LV.C18.envelope_file_reads_back
